@@ -19,6 +19,11 @@ PubInitsQ == {
   Pub(ZonesQ, [z \in ZonesQ |-> 7], [z \in ZonesQ |-> NoDS]),
   Pub(ZonesQ, [z \in ZonesQ |-> IF z = "p" THEN 3 ELSE 7], [z \in ZonesQ |-> IF z = "c" THEN 1 ELSE NoDS]) }
 AuxNone == {NoAux}
+ZonesT  == {"p", "c", "g"}
+ParentT == [z \in ZonesT |-> CASE z = "p" -> "root" [] z = "c" -> "p" [] z = "g" -> "c"]
+PubInitsT == {
+  Pub(ZonesT, [z \in ZonesT |-> 7], [z \in ZonesT |-> NoDS]),
+  Pub(ZonesT, [z \in ZonesT |-> IF z = "p" THEN 3 ELSE 7], [z \in ZonesT |-> IF z = "g" THEN 1 ELSE NoDS]) }
 ZonesOne == {"p"}
 ParentOne == [z \in ZonesOne |-> "root"]
 PubInitsOne == {Pub(ZonesOne, [z \in ZonesOne |-> 7], [z \in ZonesOne |-> NoDS]), Pub(ZonesOne, [z \in ZonesOne |-> 7], [z \in ZonesOne |-> 3])}
